@@ -200,6 +200,9 @@ func (cf *CloudflarePublisher) PublishECH(ctx context.Context, records []Target,
 			results = append(results, result)
 			continue
 		}
+		// The record now holds the new value: a later target naming the same
+		// record has nothing left to write.
+		data[zoneName{r.Zone, r.Name}] = v
 		result.Code = StatusUpdated
 		results = append(results, result)
 	}
